@@ -1,6 +1,38 @@
--- shard 4 of the closeness / tick-gap sweep (C06 (c), (e)): |tick| in [131072, 163840)
+-- shard 4 of the closeness / tick-gap sweep (C06 (c), (e)): |tick| in [131072, 163840), 16 blocks of 2^11
 import Proofs.Lemmas.ClosePred
 namespace Demeter.TickClose
 set_option maxRecDepth 100000 in
-theorem close_shard_04 : chkN closeSweepPred 131072 shardBits = true := by decide +kernel
+theorem close_blk_131072 : chkN closeSweepPred 131072 11 = true := by decide +kernel
+set_option maxRecDepth 100000 in
+theorem close_blk_133120 : chkN closeSweepPred 133120 11 = true := by decide +kernel
+set_option maxRecDepth 100000 in
+theorem close_blk_135168 : chkN closeSweepPred 135168 11 = true := by decide +kernel
+set_option maxRecDepth 100000 in
+theorem close_blk_137216 : chkN closeSweepPred 137216 11 = true := by decide +kernel
+set_option maxRecDepth 100000 in
+theorem close_blk_139264 : chkN closeSweepPred 139264 11 = true := by decide +kernel
+set_option maxRecDepth 100000 in
+theorem close_blk_141312 : chkN closeSweepPred 141312 11 = true := by decide +kernel
+set_option maxRecDepth 100000 in
+theorem close_blk_143360 : chkN closeSweepPred 143360 11 = true := by decide +kernel
+set_option maxRecDepth 100000 in
+theorem close_blk_145408 : chkN closeSweepPred 145408 11 = true := by decide +kernel
+set_option maxRecDepth 100000 in
+theorem close_blk_147456 : chkN closeSweepPred 147456 11 = true := by decide +kernel
+set_option maxRecDepth 100000 in
+theorem close_blk_149504 : chkN closeSweepPred 149504 11 = true := by decide +kernel
+set_option maxRecDepth 100000 in
+theorem close_blk_151552 : chkN closeSweepPred 151552 11 = true := by decide +kernel
+set_option maxRecDepth 100000 in
+theorem close_blk_153600 : chkN closeSweepPred 153600 11 = true := by decide +kernel
+set_option maxRecDepth 100000 in
+theorem close_blk_155648 : chkN closeSweepPred 155648 11 = true := by decide +kernel
+set_option maxRecDepth 100000 in
+theorem close_blk_157696 : chkN closeSweepPred 157696 11 = true := by decide +kernel
+set_option maxRecDepth 100000 in
+theorem close_blk_159744 : chkN closeSweepPred 159744 11 = true := by decide +kernel
+set_option maxRecDepth 100000 in
+theorem close_blk_161792 : chkN closeSweepPred 161792 11 = true := by decide +kernel
+theorem close_shard_04 : chkN closeSweepPred 131072 shardBits = true :=
+  (chkN_join _ 131072 14 (chkN_join _ 131072 13 (chkN_join _ 131072 12 (chkN_join _ 131072 11 close_blk_131072 close_blk_133120) (chkN_join _ 135168 11 close_blk_135168 close_blk_137216)) (chkN_join _ 139264 12 (chkN_join _ 139264 11 close_blk_139264 close_blk_141312) (chkN_join _ 143360 11 close_blk_143360 close_blk_145408))) (chkN_join _ 147456 13 (chkN_join _ 147456 12 (chkN_join _ 147456 11 close_blk_147456 close_blk_149504) (chkN_join _ 151552 11 close_blk_151552 close_blk_153600)) (chkN_join _ 155648 12 (chkN_join _ 155648 11 close_blk_155648 close_blk_157696) (chkN_join _ 159744 11 close_blk_159744 close_blk_161792))))
 end Demeter.TickClose
